@@ -546,6 +546,25 @@ def rule_trunclaw(P) -> RuleResult:
                      f'implementation gives {_show_lf(got) if got is not None else show(paths[0].value)[:80]}', loc(pa))
         else:
             res.ok({'function': 'date_part', 'unit': unit, 'value': _show_lf(_norm(want))})
+    # the units that are fields of the ISO calendar / the weekday: the calendar method of the date, nothing else
+    iso = T('call', ('DATE.isocalendar', (), ()))
+    CAL_SPEC = {
+        'weekday': [T('call', ('DATE.weekday', (), ()))], 'dow': [T('call', ('DATE.weekday', (), ()))],
+        'isoweekday': [T('call', ('DATE.isoweekday', (), ())), T('item', (iso, 2)), T('attr', (iso, 'weekday'))],
+        'isodow': [T('call', ('DATE.isoweekday', (), ())), T('item', (iso, 2)), T('attr', (iso, 'weekday'))],
+        'week': [T('item', (iso, 1)), T('attr', (iso, 'week'))],
+        'isoyear': [T('item', (iso, 0)), T('attr', (iso, 'year'))],
+    }
+    for unit, accepted in CAL_SPEC.items():
+        paths = Engine(P).paths(pa, {pa.params[0]: unit, pa.params[1]: X})
+        if len(paths) != 1 or paths[0].decisions:
+            raise AnalysisError(f'{pa.fq}: the branch for unit {unit!r} is not selected by comparisons with constants')
+        if paths[0].value in accepted:
+            res.ok({'function': 'date_part', 'unit': unit, 'value': show(accepted[0])})
+        else:
+            res.fail(f'function:date_part[{unit}]', f'trunclaw:part:{unit}', f"date_part('{unit}', d) must be {show(accepted[0])} (the "
+                     f'{"ISO week-numbering year, which differs from the calendar year around New Year" if unit == "isoyear" else "calendar field of that name"}); '
+                     f'the implementation gives `{show(paths[0].value)[:80]}`', loc(pa))
     if qu:
         q = qu[-1]
         for p in Engine(P).paths(q, {q.params[0]: X}):
